@@ -209,6 +209,15 @@ def build_harness(profile="release", hooks=True, config="default", features=None
         env["RUSTFLAGS"] = f"--cfg {GUARD}"
     if config != "default":
         env["CARGO_TARGET_DIR"] = CARGO_TARGET + "-" + config
+    # the area registry is generated by harness/build.rs from the a_*.rs files present: make sure it
+    # is regenerated whenever that set changes (cargo's directory mtime tracking is not reliable here)
+    hdir = os.path.join(VERIF, "harness")
+    names = ",".join(sorted(f for f in os.listdir(os.path.join(hdir, "src")) if f.startswith("a_")))
+    stamp = os.path.join(BUILD, "areas.list")
+    os.makedirs(BUILD, exist_ok=True)
+    if not os.path.exists(stamp) or open(stamp).read() != names:
+        os.utime(os.path.join(hdir, "build.rs"), None)
+        open(stamp, "w").write(names)
     prof = "--release" if profile == "release" else f"--profile {profile}"
     feat = "" if not features else " " + features
     rc, out = sh(f"cargo build --offline {prof}{feat}", cwd=os.path.join(VERIF, "harness"), env=env, timeout=3000)
